@@ -333,7 +333,6 @@ impl Solver {
 
     /// response-bearing point: returns true if a fault was injected (and the normal answer must not be sent)
     fn fault_point(&mut self, kind_of_point: &str) -> bool {
-        let Some((kind, at)) = self.fault.clone() else { return false };
         let n = match &self.counter_file {
             Some(f) => {
                 let cur: u64 = std::fs::read_to_string(f).ok().and_then(|s| s.trim().parse().ok()).unwrap_or(0);
@@ -342,6 +341,7 @@ impl Solver {
             }
             None => 0,
         };
+        let Some((kind, at)) = self.fault.clone() else { return false };
         if n != at {
             return false;
         }
